@@ -75,6 +75,20 @@ def arith_lines(rng, thorough):
                 pairs.add((a, b))
             for a, b in sorted(pairs):
                 lines.append("AR %s %s %d %d" % (op, ty, a, b))
+    # the checked forms expanded inside a loop over 2..8 operand pairs, overflowing and not, in every mix (ARL)
+    for ty, w in (("u32", 32), ("u64", 64)):
+        mx = (1 << w) - 1
+        for op in ("add", "mul"):
+            for _ in range(40 if not thorough else 1500):
+                prs = []
+                for _k in range(rng.randint(2, 8)):
+                    a = rnd_val(rng, w)
+                    if op == "add":
+                        b = max(0, min(mx, mx - a + rng.choice([-3, 0, 1, 2, 5]))) if rng.random() < 0.6 else rnd_val(rng, w)
+                    else:
+                        b = max(0, min(mx, (mx // a if a else 0) + rng.choice([-1, 0, 1, 2]))) if rng.random() < 0.6 else rnd_val(rng, w)
+                    prs.append("%d %d" % (a, b))
+                lines.append("ARL %s %s %s" % (op, ty, " ".join(prs)))
     # one operand a compile-time constant (8 constants x both sides, each in an out-of-line function of its own: the
     # situation in which a compiler lets operands of an inline-assembly statement share a register)
     for ty, w in (("u32", 32), ("u64", 64)):
